@@ -367,6 +367,40 @@ Definition quiescent_step (keep : bool) (cfg : nat -> sup) (st : istate) (fp : f
 
 Definition init_istate (fam : family) : istate := mkI fam [] [].
 
+(* ------------------------------------------------------------------ operation sequences *)
+
+(* what can happen to a family between failures: user messages, and the parent reinstating a
+   suspended child (PID.Reinstate -> doReinstate) *)
+Inductive op :=
+| OFail (f : failure)
+| OPing
+| OReinstate (i : nat).
+
+Definition reinstate (fam : family) (i : nat) : family :=
+  mkFam (upd (f_children fam) i reinstate_child) (f_escal fam).
+
+Definition spec_op (keep : bool) (cfg : nat -> sup) (fam : family) (o : op) : family :=
+  match o with
+  | OFail f => supervise keep cfg fam f
+  | OPing => ping_all fam
+  | OReinstate i => reinstate fam i
+  end.
+
+(* the same operation on the implementation model; [picks] orders the restart goroutines *)
+Definition impl_op (keep : bool) (cfg : nat -> sup) (st : istate) (op_picks : op * list nat) : istate :=
+  match fst op_picks with
+  | OFail f => quiescent_step keep cfg st (f, snd op_picks)
+  | OPing => impl_step keep cfg st LPing
+  | OReinstate i => mkI (reinstate (i_fam st) i) (i_inbox st) (i_tasks st)
+  end.
+
+(* the observable family after every operation of a sequence *)
+Fixpoint spec_trace (keep : bool) (cfg : nat -> sup) (fam : family) (ops : list op) : list family :=
+  match ops with
+  | [] => []
+  | o :: r => let fam' := spec_op keep cfg fam o in fam' :: spec_trace keep cfg fam' r
+  end.
+
 (* ------------------------------------------------------------------ observation (what the harness sees) *)
 
 Definition status_code (s : status) : Z := match s with Running => 0 | Suspended => 1 | Stopped => 2 end.
